@@ -12,6 +12,8 @@ import (
 	"github.com/cosmos/cosmos-sdk/codec"
 	sdk "github.com/cosmos/cosmos-sdk/types"
 
+	authtypes "github.com/cosmos/cosmos-sdk/x/auth/types"
+	govtypes "github.com/cosmos/cosmos-sdk/x/gov/types"
 	govv1 "github.com/cosmos/cosmos-sdk/x/gov/types/v1"
 	recordtypes "mods.irisnet.org/modules/record/types"
 
@@ -22,7 +24,7 @@ import (
 func init() {
 	Register(&Spec{
 		ID: "C19", Level: "exploration",
-		Rule: "cases = chains of record creations (1..N records per tx, 1..M txs per block, byte-identical contents by the same creator in one tx / one block / different blocks, several creators); monitors: every id returned by a message response must be new; every id is re-read through the query after its block, and all ids periodically and at the end, against the submitted contents, creator and sha256(tx bytes); the raw record store is diffed block to block (only additions, no value ever changes or disappears); non-trivial = a created record whose id/readback relation was evaluated; distinct = distinct (records per tx, duplicate kind, creator, read-back age class)",
+		Rule: "cases = chains of record creations (odd cases are born with records in genesis, the last of them byte-identical to the first record created afterwards, by governance; 1..N records per tx, 1..M txs per block, byte-identical contents by the same creator in one tx / one block / different blocks, several creators); monitors: every id returned by a message response must be new; every id is re-read through the query after its block, and all ids periodically and at the end, against the submitted contents, creator and sha256(tx bytes); the raw record store is diffed block to block (only additions, no value ever changes or disappears); non-trivial = a created record whose id/readback relation was evaluated; distinct = distinct (records per tx, duplicate kind, creator, read-back age class)",
 		Assume: []string{"record ids are the hex strings returned in MsgCreateRecordResponse", "tx hash is the upper-case hex sha256 of the tx bytes as the module reports it"},
 		Cases:  func(t string) int { return tierN(t, 8, 32) },
 		Run:    runRecord,
@@ -256,8 +258,25 @@ func (w *recordWorkload) rereadAll(age string) {
 
 func runRecord(run *ev.Run, c int) {
 	w := newRecordWorkload()
+	// odd cases: the chain is born with records, the last of them byte-identical (contents, creator, hash of no
+	// transaction bytes) to the record governance creates later - which is then the first creation after genesis
+	genesisBorn := c%2 == 1
+	emptyHash := sha256.Sum256(nil)
+	emptyHex := strings.ToUpper(hex.EncodeToString(emptyHash[:]))
+	govAddr := authtypes.NewModuleAddress(govtypes.ModuleName).String()
+	canon := []recordtypes.Content{{Digest: "abc", DigestAlgo: "sha256", URI: "u", Meta: "m"}}
+	var born []recordtypes.Record
+	if genesisBorn {
+		for i := 0; i < 1+c%3; i++ {
+			born = append(born, recordtypes.Record{TxHash: strings.ToUpper(fmt.Sprintf("%064x", i+1)), Contents: []recordtypes.Content{{Digest: fmt.Sprintf("born%d", i), DigestAlgo: "sha256"}}, Creator: govAddr})
+		}
+		born = append(born, recordtypes.Record{TxHash: emptyHex, Contents: canon, Creator: govAddr})
+	}
 	r := rig.New(rig.Options{Seed: fmt.Sprintf("rec-%d-%d", run.Seed, c), NumAccounts: 4, Balances: sdk.NewCoins(sdk.NewInt64Coin(rig.BondDenom, 1_000_000_000)), InflationOff: true, SubSecond: c%2 == 1,
 		GenesisMutator: func(cdc codec.Codec, gs map[string]json.RawMessage) {
+			if genesisBorn {
+				gs[recordtypes.ModuleName] = cdc.MustMarshalJSON(&recordtypes.GenesisState{Records: born})
+			}
 			// short voting period: records are also created by messages that x/gov executes in its end blocker,
 			// i.e. outside any transaction (no tx bytes), which is where byte-identical records can recur across blocks
 			var gg govv1.GenesisState
@@ -268,11 +287,33 @@ func runRecord(run *ev.Run, c int) {
 			gs["gov"] = cdc.MustMarshalJSON(&gg)
 		}})
 	w.Attach(run, r)
+	if genesisBorn {
+		// the records the chain was born with count as creations: their ids are the keys they are stored under
+		n := 0
+		r.WalkStore(r.Ctx(), "record", recordtypes.RecordKey, func(k, v []byte) bool {
+			var rec recordtypes.Record
+			r.Cdc.MustUnmarshal(v, &rec)
+			id := hex.EncodeToString(k[len(recordtypes.RecordKey):])
+			w.ids[id] = &recExpect{TxHash: rec.TxHash, Creator: rec.Creator, Contents: rec.Contents, Height: 0}
+			w.order = append(w.order, id)
+			n++
+			return false
+		})
+		run.Eval(1)
+		if n != len(born) {
+			run.Violation("C19:record:genesis-records-share-an-id", map[string]any{"in_genesis": len(born), "stored": n}, "genesis holds %d records, %d are stored", len(born), n)
+		}
+		run.Count("genesis-born-records", int64(n))
+	}
+	govSeen := false
 	blocks := tierN(run.Tier, 150, 1200)
 	proposer := r.Acc(0)
 	govRecord := &recordtypes.MsgCreateRecord{Contents: w.canon, Creator: r.GovAddr.String()}
 	submitAt := map[int]bool{5: true, 9: true, 13: true, 60: true, 61: true}
 	quiet := func(b int) bool { // no record txs around the blocks in which a proposal is executed
+		if genesisBorn && !govSeen && b < 40 { // the first creation after a genesis with records is governance's
+			return true
+		}
 		for s := range submitAt {
 			if b >= s+18 && b <= s+25 {
 				return true
@@ -281,7 +322,6 @@ func runRecord(run *ev.Run, c int) {
 		return false
 	}
 	var pendingVotes []uint64
-	emptyHash := sha256.Sum256(nil)
 	for b := 0; b < blocks; b++ {
 		var txs []rig.Tx
 		if !quiet(b) {
@@ -322,11 +362,15 @@ func runRecord(run *ev.Run, c int) {
 			}
 			run.Eval(1)
 			run.Count("records-created-by-governance", 1)
+			if genesisBorn && !govSeen {
+				run.Count("first-creation-after-genesis-repeats-the-last-genesis-record", 1)
+			}
+			govSeen = true
 			if prev, dup := w.ids[id]; dup {
 				run.Violation("C19:record:id-returned-twice", map[string]any{"id": id, "first_height": prev.Height, "height": br.Height, "path": "governance-executed message"}, "record id %s given to a governance-created record at height %d was already given at height %d", id, br.Height, prev.Height)
 				continue
 			}
-			w.ids[id] = &recExpect{TxHash: strings.ToUpper(hex.EncodeToString(emptyHash[:])), Creator: r.GovAddr.String(), Contents: w.canon, Height: br.Height}
+			w.ids[id] = &recExpect{TxHash: emptyHex, Creator: r.GovAddr.String(), Contents: w.canon, Height: br.Height}
 			w.order = append(w.order, id)
 			w.govCreated++
 			run.Class("create", "by-governance", "identical-across-blocks")
